@@ -329,12 +329,31 @@ func (in *Interp) convert(from, to types.Type, x value) value {
 			}
 			// []rune
 			var rs []rune
+			allConst := true
 			for _, e := range elems {
-				t := e.(*Term)
-				if !t.IsConst() {
-					panic(unsupported("string([]rune) with symbolic runes"))
+				if !e.(*Term).IsConst() {
+					allConst = false
 				}
-				rs = append(rs, rune(t.SVal()))
+			}
+			if !allConst {
+				// symbolic runes: only ASCII ones can be rendered without UTF-8 encoding over terms
+				var b []*Term
+				for _, e := range elems {
+					t := e.(*Term)
+					if !in.branch(ts.Not(ts.Cmp(OpUlt, t, ts.BV(t.w, 0x80)))) {
+						b = append(b, ts.Extract(t, 7, 0))
+						continue
+					}
+					if in.branch(ts.Not(ts.Cmp(OpUlt, t, ts.BV(t.w, 0x800)))) {
+						panic(unsupported("string([]rune) with symbolic runes >= 0x800"))
+					}
+					// two-byte UTF-8: 110xxxxx 10xxxxxx
+					b = append(b, ts.Concat(ts.BV(3, 6), ts.Extract(t, 10, 6)), ts.Concat(ts.BV(2, 2), ts.Extract(t, 5, 0)))
+				}
+				return mkStr(b)
+			}
+			for _, e := range elems {
+				rs = append(rs, rune(e.(*Term).SVal()))
 			}
 			return string(rs)
 		}
